@@ -117,6 +117,12 @@ pub fn pool() -> Vec<S> {
         S::FnStmt("f".into(), vec![], b(vec![inc_x.clone()])),
         S::FnStmt("f".into(), vec![], b(vec![S::Return(Some(x())), push_obs(lit_i(99))])),
         S::Let("g".into(), E::Fn(vec!["a".into()], b(vec![S::Expr(bin("*", var("a"), lit_i(2)))]))),
+        // function bodies that do not end in an expression statement: an empty block, a loop, a let, a nested
+        // block with a value, after an earlier expression statement whose value must not leak out
+        S::Let("g".into(), E::Fn(vec!["a".into()], b(vec![S::Expr(bin("*", var("a"), lit_i(2))), S::Block(vec![])]))),
+        S::Let("g".into(), E::Fn(vec!["a".into()], b(vec![S::Expr(bin("*", var("a"), lit_i(3))), S::While(None, E::Lit(crate::refval::V::Bool(false)), vec![])]))),
+        S::Let("g".into(), E::Fn(vec!["a".into()], b(vec![S::Expr(var("a")), S::Let("q".into(), lit_i(4))]))),
+        S::Let("g".into(), E::Fn(vec!["a".into()], b(vec![S::Expr(lit_i(1)), S::Block(vec![S::Let("q".into(), var("a")), S::Expr(bin("+", var("q"), lit_i(10)))])]))),
         push_obs(call("f", vec![])),
         push_obs(call("f", vec![lit_i(1)])),
         push_obs(call("g", vec![lit_i(3)])),
